@@ -380,6 +380,12 @@ RSA_SMALLD = (0xbc7c3bfdb4e9b59eeec224697d8efd0d41532aeb20876415336ae293694b8510
               0xfb504ffcf1379cd3e902db375213fc11ac6ee3e42b5f301c448e836f370f5c168c8e2532b858e0d3637ae55ee0f8600c104b1745004fa113bb00a0a289548f91)
 
 
+# the primes next to 3 * 2^510 on either side (authoring-time search, e = 65537 coprime to p-1 and q-1): 1104 apart, although they differ in their
+# leading bits - FIPS 186-4 B.3.3 (5.4) wants |p - q| > 2^(nlen/2 - 100) and another q otherwise
+RSA_CLOSE = (0xbffffffffffffffffffffffffffffffffffffffffffffffffffffffffffffffffffffffffffffffffffffffffffffffffffffffffffffffffffffffffffffea9,
+             0xc00000000000000000000000000000000000000000000000000000000000000000000000000000000000000000000000000000000000000000000000000002f9)
+
+
 class ScriptedTape(Tape):
     """randfunc whose entropy makes generate_probable_prime() draw chosen candidates: a request made by Integer.random() on behalf of
     generate_probable_prime() itself is served from the octets of the next scripted number; every other request (Miller-Rabin bases, further
@@ -1382,6 +1388,9 @@ def gen_rsa(item, deep):
     if item.get("tape") == "small-d":               # entropy under which the first two candidates are RSA_SMALLD
         bits, e = 1024, 65537
         tape = ScriptedTape("gen-rsa/%s" % item["cid"], RSA_SMALLD, 64)
+    elif item.get("tape") == "close-primes":        # entropy under which the first candidates for p and q are RSA_CLOSE
+        bits, e = 1024, 65537
+        tape = ScriptedTape("gen-rsa/%s" % item["cid"], RSA_CLOSE, 64)
     key, exc = attempt(lambda: RSA.generate(bits, randfunc=tape, e=e), seconds=300)
     rec, kw = rsa_key_record(key, deep)
     return {"fam": "gen", "what": "rsa", "api": "generate", "bits": bits, "e": sn(e), "deep": bool(deep), "exc": exc, "key": rec, "kw": kw, "tape": tape.used,
@@ -1425,9 +1434,46 @@ def gen_dsa(item, deep):
             "cost": 50 + (len(domw["cq"]) + links) * (pb // 100) ** 2 // 20}
 
 
+class RecTape(Tape):
+    def __init__(self, tag):
+        Tape.__init__(self, tag)
+        self.outs = []
+
+    def __call__(self, n):
+        b = Tape.__call__(self, n)
+        self.outs.append(b)
+        return b
+
+
+class ReplayTape(Tape):
+    """serves recorded requests again (then the ordinary tape)"""
+
+    def __init__(self, tag, outs):
+        Tape.__init__(self, tag)
+        self.outs = list(outs)
+
+    def __call__(self, n):
+        if self.outs and len(self.outs[0]) == n:
+            self.used += n
+            return self.outs.pop(0)
+        self.outs = []
+        return Tape.__call__(self, n)
+
+
 def gen_elgamal(item, deep):
     bits = item["bits"]
     tape = Tape("gen-eg/%s" % item["cid"])
+    if item.get("tape") in ("last-zeros", "last-ones"):
+        # boundary entropy for the LAST draw (the private key): the same tape as a first, recorded run - so the same p and g - with its final
+        # request answered by all-zero / all-one octets
+        t1 = RecTape("gen-eg/%s" % item["cid"])
+        try:
+            ElGamal.generate(bits, t1)
+        except Exception:      # noqa: BLE001
+            pass
+        if t1.outs:
+            last = bytes(len(t1.outs[-1])) if item["tape"] == "last-zeros" else b"\xff" * len(t1.outs[-1])
+            tape = ReplayTape("gen-eg/%s/2" % item["cid"], t1.outs[:-1] + [last])
     key, exc = attempt(lambda: ElGamal.generate(bits, tape), seconds=900)
     if key is None:
         rec, kw = NOKEY_EG, eg_w(0, 0, 0, 0, False, False)
@@ -1437,6 +1483,7 @@ def gen_elgamal(item, deep):
         rec = {"priv": bool(key.has_private()), "p": nat(kp), "g": nat(kg), "y": nat(ky), "x": nat(kx)}
         kw = eg_w(kp, kg, ky, kx, key.has_private(), deep)
     return {"fam": "gen", "what": "elgamal", "api": "generate", "bits": bits, "deep": bool(deep), "exc": exc, "key": rec, "kw": kw, "tape": tape.used,
+            "entropy": item.get("tape", "pseudo-random tape"),
             "cost": 50 + (len(kw["cx"]) + (len(kw["mrp"]["chain"]) if deep else 0)) * (max(bits, 100) // 100) ** 2 // 20 + 100}
 
 
